@@ -20,6 +20,12 @@ impl Eng {
         let scheme = build_scheme(&env);
         Eng { env, scheme }
     }
+    /// The scheme comes from a builder that also refused a redefinition of
+    /// every identifier and list (must make no difference).
+    pub fn new_after_refusals(env: Env) -> Eng {
+        let scheme = crate::engine::build_scheme_after_refusals(&env).expect("harness scheme: redefinitions are refused");
+        Eng { env, scheme }
+    }
     pub fn ctx(&self, vals: &Ctx, lists: &ListState) -> ExecutionContext<'static> {
         // the returned context borrows nothing from `self` (values are owned)
         build_ctx(&self.scheme, &self.env, vals, lists)
@@ -332,12 +338,28 @@ pub fn error_kind(rendered: &str) -> String {
 
 pub fn first_line(s: &str) -> String {
     let l = s.lines().next().unwrap_or("");
-    // strip volatile details (addresses, indexes) but keep message and location
+    // keep the message and the location; data quoted in the message (`...`) is
+    // volatile and would make every occurrence a signature of its own
+    let (msg, loc) = match l.rfind(" @ ") {
+        Some(k) => (&l[..k], &l[k..]),
+        None => (l, ""),
+    };
     let mut out = String::new();
-    for ch in l.chars().take(160) {
-        out.push(ch);
+    let mut quoted = false;
+    for ch in msg.chars() {
+        if ch == '`' {
+            quoted = !quoted;
+            if quoted {
+                out.push_str("`..`");
+            }
+            continue;
+        }
+        if !quoted {
+            out.push(ch);
+        }
     }
-    out
+    let out: String = out.chars().take(120).collect();
+    format!("{}{}", out, loc.chars().take(100).collect::<String>())
 }
 
 pub fn value_result_json(r: &RRes) -> J {
